@@ -85,6 +85,12 @@ Proof.
     rewrite O, R; split; congruence.
 Qed.
 
+Lemma interior_accessors_panic_iff_unchecked_l : forall d i, blen d = PAGE_SIZE -> bytes_ok d = true -> 0 <= i ->
+  (interior_slot_at d i = Panic <-> interior_slot_oob d i = true) /\ (interior_key_at d i = Panic <-> interior_slot_oob d i = true).
+Proof.
+  intros d i H1 H2 H3. split; [apply (interior_slot_at_panic_iff_l d i H1 H2 H3) | apply (interior_key_at_panic_iff_l d i H1 H2 H3)].
+Qed.
+
 Lemma interior_slots_fit_no_oob d i : PH_SIZE <= blen d -> interior_slots_fit d = true -> 0 <= i ->
   interior_slot_oob d i = false.
 Proof.
